@@ -23,7 +23,7 @@ func init() {
 	core.Register(&core.Prop{
 		ID:    "C11",
 		Level: "exploration",
-		Rule: "three scenario families, each run in a plain and in a race-detector build: W1 = client and server Conn over a duplex in-memory transport (random read chunking, writes that dawdle inside the transport), per side 1 reader with default handlers, 1 writer, 0-4 WriteControl callers, Close at a drawn moment or never; " +
+		Rule: "three scenario families, each run in a plain and in a race-detector build: W1 = client and server Conn over a duplex in-memory transport (random read chunking, writes that dawdle inside the transport), per side 1 reader with default handlers, 1 writer, 0-4 WriteControl callers, Close at a drawn moment or never; the writer sets far-future or zero write deadlines and a monitor over the transport log compares the deadline armed at every Write of an own frame with the one in force for that frame; " +
 			"W2 = the writer is held inside the transport's Write by a gate while WriteControl callers with 5-40 ms deadlines arrive; W3 = one PreparedMessage and one write-buffer pool shared by 8-32 connections on as many goroutines; " +
 			"distinct = interleaving signature (which kinds of calls overlapped, control frame between fragments, who waited behind whom); non-trivial = at least two write-side calls overlapped in time",
 		Variants: func(tier string) []string { return []string{"plain", "race"} },
@@ -38,7 +38,7 @@ func init() {
 			return n
 		},
 		Run:          runC11,
-		Required:     []string{"w1_runs", "w2_runs", "w3_runs", "frames_decoded", "writecontrol_timeouts_observed", "histories_linearizable"},
+		Required:     []string{"w1_runs", "w2_runs", "w3_runs", "frames_decoded", "writecontrol_timeouts_observed", "histories_linearizable", "deadline_pairs_checked"},
 		CaseTimeoutS: 300,
 		MaxWorkers:   8,
 		Assumptions: []string{
@@ -151,8 +151,10 @@ func c11W1(ctx *core.Ctx, out *core.Out) {
 		id := epA.newID(okClose)
 		body := idCloseBody(id)
 		if rr.Bool() {
+			epA.noteDL(id, epA.curDL)
 			epA.record(1, opIn{okClose, id}, func() error { return epA.c.WriteMessage(ws.CloseMessage, body) })
 		} else {
+			epA.noteDL(id, time.Time{})
 			epA.record(1, opIn{okClose, id}, func() error { return epA.c.WriteControl(ws.CloseMessage, body, time.Time{}) })
 		}
 	}()
@@ -250,6 +252,13 @@ func c11W1(ctx *core.Ctx, out *core.Out) {
 		}
 		if tail > 0 && cs.Abrupt == 0 {
 			fail("partial-frame", fmt.Sprintf("%s side write log ends with %d loose bytes although the connection was never cut", side.name, tail), nil)
+			return
+		}
+		// the deadline armed on the transport at every write of an own frame
+		nchk, rep := ep.armedDeadlines(frames, msgs, ep.nc.WrittenLen()-tail)
+		out.Count("deadline_pairs_checked", int64(nchk))
+		if rep != "" {
+			fail("wrong-deadline-armed", side.name+" side: "+rep, nil)
 			return
 		}
 		// nothing after a close frame
